@@ -129,6 +129,8 @@ func C04(v *View) []Violation {
 			if !ok {
 				out = append(out, viol("C04", "create-occupied", "%s: ordinal %d holds pod %s (phase %s) in the snapshot", c.ID, cr.Ord, p.Name, p.Status.Phase))
 			}
+		} else if p := v.Orphans[cr.Ord]; p != nil && p.Name == c.Name {
+			out = append(out, viol("C04", "create-occupied-by-orphan", "%s: ordinal %d holds the matching orphan pod %s in the snapshot, which the set would adopt; its adoption did not go through and the pod was not reported gone", c.ID, cr.Ord, p.Name))
 		}
 	}
 	return out
@@ -380,7 +382,15 @@ func C12(v *View) []Violation {
 			out = append(out, viol("C12", "observed-generation-regressed", "%s writes observedGeneration=%d below stored %d", c.ID, st.ObservedGeneration, t.Status.ObservedGeneration))
 		}
 		old := v.Set.Status.CurrentRevision
-		if _, exists := v.Revs[old]; exists && old != "" && st.CurrentRevision != old {
+		// the record of the current revision is there when the API holds it under that name, controlled by this set (the
+		// controller made it: whether its own listing finds it again is the controller's business, not an excuse)
+		_, exists := v.Revs[old]
+		if r := v.Rec.Before.API.Revs[world.ObjKey(v.Set.Namespace, old)]; r != nil && !exists {
+			if ref := ControllerOf(r); ref != nil && ref.UID == v.Set.UID && r.DeletionTimestamp == nil {
+				exists = true
+			}
+		}
+		if exists && old != "" && st.CurrentRevision != old {
 			if st.CurrentRevision != st.UpdateRevision {
 				out = append(out, viol("C12", "current-revision-jump", "%s moves currentRevision %s -> %s which is not the update revision %s", c.ID, old, st.CurrentRevision, st.UpdateRevision))
 			}
